@@ -1,9 +1,189 @@
-(* C20 - concurrent use: property theorems only. *)
-From Coq Require Import List NArith ZArith.
-From GoMC Require Import Model.C20_syntax Gen.Queue Model.C20 Proofs.C20.
+(* C20 - concurrent use: property theorems only.
+   Models: Model/C20_syntax.v, Model/C20.v (machine interpreting the statement lists of Gen/Queue.v, which
+   tools/gotrans regenerates from net/queue/queue.go and server/playerlist.go on every run).
+   Proofs: Proofs/C20.v (skeleton obligations), C20_fifo.v, C20_ll.v, C20_ch.v, C20_plist.v, C20_pool.v, C20_top.v.
+   `reachable P cap scripts s`: s is reached from the initial state by ANY finite interleaving of steps of ANY
+   threads (one per script; scripts are arbitrary lists of Push v / Pull / Close) with ANY choice of the
+   parked thread a Signal / channel send wakes. *)
+From Coq Require Import List Arith NArith ZArith Bool.
+From GoMC Require Import Model.C20_syntax Gen.Queue Model.C20 Proofs.C20 Proofs.C20_fifo Proofs.C20_ll Proofs.C20_ch
+  Proofs.C20_plist Proofs.C20_pool Proofs.C20_top.
 Import ListNotations.
 
+(* ---------------------------------------------------------------- the translated skeletons are the proved ones *)
 Theorem C20_skeleton_ll : ll_progs = expected_ll.
 Proof. exact ll_progs_ok. Qed.
+Theorem C20_skeleton_ch : ch_progs = expected_ch.
+Proof. exact ch_progs_ok. Qed.
+Theorem C20_skeleton_pl : pl_progs = expected_pl.
+Proof. exact pl_progs_ok. Qed.
+
+(* ---------------------------------------------------------------- FIFO, for any programs at all *)
+(* delivered ++ queue = pushed in every reachable state: nothing invented, nothing lost, nothing duplicated,
+   removal order = insertion order *)
+Theorem C20_fifo : forall P n sc s, reachable P n sc s -> delivered s ++ q s = pushed s.
+Proof. exact top_fifo. Qed.
+(* both histories only ever grow at the end, so their order is the temporal order of the insertions /
+   removals - in particular the program order of each single producer *)
+Theorem C20_history_order : forall P s0 s, reach P s0 s ->
+  (exists l, pushed s = pushed s0 ++ l) /\ (exists l, delivered s = delivered s0 ++ l).
+Proof. exact top_order. Qed.
+
+(* ---------------------------------------------------------------- LinkedListQueue *)
+(* every access to the list / the closed flag is made under the mutex; never Unlock of a free mutex,
+   Wait without the mutex, or Remove(nil) *)
+Theorem C20_ll_protected : forall n sc s, reachable ll_progs n sc s -> race s = false /\ fatal s = false.
+Proof. exact top_ll_protected. Qed.
+(* exactly once: each value was handed to callers exactly as many times as it was removed from the queue *)
+Theorem C20_ll_exactly_once : forall n sc s a, reachable ll_progs n sc s ->
+  sumf (ga a) (thr s) = cN a (delivered s).
+Proof. exact top_ll_exactly_once. Qed.
+(* a Pull reports closure only when the queue is closed AND empty: every item ever accepted was handed out first *)
+Theorem C20_ll_close : forall n sc s i t, reachable ll_progs n sc s -> nth_error (thr s) i = Some t ->
+  In (RPull None false) (out t) -> closed s = true /\ q s = [] /\ delivered s = pushed s.
+Proof. exact top_ll_close. Qed.
+Theorem C20_ll_results : forall n sc s i t r, reachable ll_progs n sc s -> nth_error (thr s) i = Some t -> In r (out t) ->
+  r = RPush true \/ (exists v, r = RPull (Some v) true) \/ r = RPull None false \/ r = RClose.
+Proof. exact top_ll_results. Qed.
+(* no lost wake-up: while a consumer is parked, the queue is open (or the closer holds the mutex just before
+   its Broadcast) and every queued item is matched by a thread that must look at the queue before parking *)
+Theorem C20_no_lost_wakeup : forall n sc s, reachable ll_progs n sc s -> existsb isW (thr s) = true ->
+  Nat.b2n (closed s) <= sumf bc (thr s) /\ length (q s) <= sumf cr (thr s).
+Proof. exact top_ll_no_lost_wakeup. Qed.
+(* no deadlock: if nobody can move, the mutex is free and every thread finished its script, or panicked in Push
+   (push on a closed queue, the documented panic), or is a consumer parked on an EMPTY and OPEN queue *)
+Theorem C20_no_deadlock : forall n sc s, reachable ll_progs n sc s -> stuck ll_progs s ->
+  owner s = None /\
+  (forall i t, nth_error (thr s) i = Some t ->
+     finished t = true \/ (isP t = true /\ exists v, cur t = Some (OPush v)) \/ (isW t = true /\ cur t = Some OPull)) /\
+  (existsb isW (thr s) = true -> q s = [] /\ closed s = false).
+Proof. exact top_ll_no_deadlock. Qed.
+(* after Close nobody waits forever *)
+Theorem C20_closed_terminates : forall n sc s, reachable ll_progs n sc s -> stuck ll_progs s -> closed s = true ->
+  forall i t, nth_error (thr s) i = Some t -> finished t = true \/ isP t = true.
+Proof. exact top_ll_closed_terminates. Qed.
+
+(* ---------------------------------------------------------------- ChannelQueue *)
+Theorem C20_ch_exactly_once : forall n sc s a, reachable ch_progs n sc s ->
+  sumf (ga a) (thr s) = cN a (delivered s).
+Proof. exact top_ch_exactly_once. Qed.
+Theorem C20_ch_close : forall n sc s i t, reachable ch_progs n sc s -> nth_error (thr s) i = Some t ->
+  In (RPull None false) (out t) -> closed s = true /\ q s = [] /\ delivered s = pushed s.
+Proof. exact top_ch_close. Qed.
+Theorem C20_ch_results : forall n sc s i t r, reachable ch_progs n sc s -> nth_error (thr s) i = Some t -> In r (out t) ->
+  (exists b, r = RPush b) \/ (exists v, r = RPull (Some v) true) \/ r = RPull None false \/ r = RClose.
+Proof. exact top_ch_results. Qed.
+Theorem C20_ch_no_deadlock : forall n sc s, reachable ch_progs n sc s -> stuck ch_progs s ->
+  (forall i t, nth_error (thr s) i = Some t ->
+     finished t = true \/ isP t = true \/ (isW t = true /\ cur t = Some OPull)) /\
+  (existsb isW (thr s) = true -> q s = [] /\ closed s = false).
+Proof. exact top_ch_no_deadlock. Qed.
+Theorem C20_ch_within_capacity : forall n sc s, reachable ch_progs n sc s -> length (q s) <= cap s.
+Proof. exact top_ch_within_capacity. Qed.
+(* the bounded queue refuses rather than blocks *)
+Theorem C20_bounded : forall n scr s i sc v o c c', reachable ch_progs n scr s ->
+  nth_error (thr s) i = Some (mkT sc (Some (OPush v)) (p_push ch_progs) Run None false o) ->
+  closed s = false -> existsb isW (thr s) = false -> cap s <= length (q s) ->
+  exists s1 s2, exec ch_progs i c s = Some s1 /\ exec ch_progs i c' s1 = Some s2 /\
+    q s2 = q s /\ pushed s2 = pushed s /\ delivered s2 = delivered s /\ closed s2 = false /\
+    nth_error (thr s2) i = Some (mkT sc None [] Run None false (o ++ [RPush false])).
+Proof. exact top_ch_bounded. Qed.
+Theorem C20_ch_full_no_waiter : forall n sc s, reachable ch_progs n sc s -> 0 < length (q s) ->
+  existsb isW (thr s) = false.
+Proof. exact top_ch_full_no_waiter. Qed.
+Theorem C20_ch_push_never_blocks : forall n scr s i sc v o, reachable ch_progs n scr s ->
+  nth_error (thr s) i = Some (mkT sc (Some (OPush v)) (p_push ch_progs) Run None false o) ->
+  exists c s', exec ch_progs i c s = Some s'.
+Proof. exact top_ch_push_never_blocks. Qed.
+
+(* ---------------------------------------------------------------- PlayerList *)
+(* the translated sections ARE the specification (check and insert in one critical section) *)
+Theorem C20_plist_spec : forall o p, papply pl_progs o p = pspec o p.
+Proof. exact top_pl_spec. Qed.
+(* never more players than the capacity, after any sequence (= any interleaving) of join/left/check/len *)
+Theorem C20_capacity : forall ops p, cap_ok p -> cap_ok (fst (prun pl_progs ops p)).
+Proof. exact top_pl_capacity. Qed.
+Theorem C20_capacity_fresh : forall ops m, cap_ok (fst (prun pl_progs ops (mkPL m []))).
+Proof. exact top_pl_capacity_fresh. Qed.
+Theorem C20_plist_nodup : forall o p, NoDup (players p) -> NoDup (players (fst (papply pl_progs o p))).
+Proof. exact top_pl_nodup. Qed.
+
+(* ---------------------------------------------------------------- pooled buffers and zlib writers *)
+(* any number of threads, each making any sequence of pack/unpack calls, any interleaving, any object the
+   pool chooses to hand out: no pooled object is touched by a thread that does not hold it (no use after Put,
+   no sharing) and no result aliases one *)
+Theorem C20_pool_isolation : forall calls p,
+  Forall (Forall (fun c => In c packet_seqs)) calls -> preach (pool_init calls) p -> perr p = false.
+Proof. exact top_pool_isolation. Qed.
+Theorem C20_pool_discipline : forall calls p,
+  Forall (Forall (fun c => disciplined [] c = true)) calls -> preach (pool_init calls) p -> perr p = false.
+Proof. exact pool_isolation. Qed.
+
+(* ---------------------------------------------------------------- the hypotheses are satisfiable *)
+(* a consumer parks, a producer wakes it, the consumer parks again, Close releases it: final state is stuck,
+   everybody finished, closure reported after the item *)
+Definition ex_scripts : list (list op) := [[OPull; OPull]; [OPush 7%N]; [OClose]].
+Definition ex_final : state := drives ll_progs [(50,0,0);(50,1,0);(50,0,0);(50,2,0);(50,0,0)] (init 0 ex_scripts).
+Example C20_ex_run : reachable ll_progs 0 ex_scripts ex_final /\ stuck ll_progs ex_final /\
+  map out (thr ex_final) = [[RPull (Some 7%N) true; RPull None false]; [RPush true]; [RClose]] /\
+  closed ex_final = true /\ pushed ex_final = [7%N] /\ delivered ex_final = [7%N].
+Proof.
+  split; [apply drives_reachable|]. split; [|vm_compute; auto].
+  intros i c. destruct i as [|[|[|[|i]]]]; vm_compute; reflexivity.
+Qed.
+(* a stuck state with a parked consumer: the queue is empty and open *)
+Definition ex_parked : state := drives ll_progs [(50,0,0)] (init 0 [[OPull]]).
+Example C20_ex_parked : reachable ll_progs 0 [[OPull]] ex_parked /\ stuck ll_progs ex_parked /\
+  existsb isW (thr ex_parked) = true /\ q ex_parked = [] /\ closed ex_parked = false.
+Proof.
+  split; [apply drives_reachable|]. split; [|vm_compute; auto].
+  intros i c. destruct i as [|[|i]]; vm_compute; reflexivity.
+Qed.
+(* Push after Close panics AFTER releasing the mutex: the others go on (the state before the fix of
+   LinkedListQueue.Push kept the mutex and this Pull could never start) *)
+Definition ex_pac : state := drives ll_progs [(50,0,0);(50,1,0);(50,2,0)] (init 0 [[OClose]; [OPush 1%N]; [OPull]]).
+Example C20_ex_push_after_close : reachable ll_progs 0 [[OClose]; [OPush 1%N]; [OPull]] ex_pac /\
+  map out (thr ex_pac) = [[RClose]; []; [RPull None false]] /\ map isP (thr ex_pac) = [false; true; false] /\
+  owner ex_pac = None /\ q ex_pac = [].
+Proof. split; [apply drives_reachable|]. vm_compute; auto. Qed.
+(* the bounded queue with capacity 1 holding one item: the hypotheses of C20_bounded hold for the next Push *)
+Definition ex_full : state := drives ch_progs [(4,0,0)] (init 1 [[OPush 1%N; OPush 2%N]]).
+Example C20_ex_bounded : reachable ch_progs 1 [[OPush 1%N; OPush 2%N]] ex_full /\
+  nth_error (thr ex_full) 0 = Some (mkT [] (Some (OPush 2%N)) (p_push ch_progs) Run None false [RPush true]) /\
+  closed ex_full = false /\ existsb isW (thr ex_full) = false /\ cap ex_full <= length (q ex_full).
+Proof. split; [apply drives_reachable|]. vm_compute; auto. Qed.
+(* the pool machine is not vacuous: a use after Put is flagged; the packet sequences are admissible calls *)
+Example C20_ex_pool_detects : perr (pdrives [(0,0);(0,0);(0,0);(0,0)] (pool_init [[[EGet 0; EPut 0; EUse 0]]])) = true.
+Proof. reflexivity. Qed.
+Example C20_ex_pool_calls : Forall (Forall (fun c => In c packet_seqs)) [[seq_pack_zlib; seq_unpack]; [seq_pack_plain; seq_unpack_err]].
+Proof. repeat constructor; cbn; tauto. Qed.
+Example C20_ex_plist : prun pl_progs [PJoin 1%N; PJoin 2%N; PJoin 3%N; PLen; PLeft 1%N; PJoin 3%N; PCheck] (mkPL 2 []) =
+  (mkPL 2 [2%N; 3%N], [PRDone false; PRDone false; PRDone true; PRLen 2; PRDone false; PRDone false; PRBool false]).
+Proof. reflexivity. Qed.
 
 Print Assumptions C20_skeleton_ll.
+Print Assumptions C20_skeleton_ch.
+Print Assumptions C20_skeleton_pl.
+Print Assumptions C20_fifo.
+Print Assumptions C20_history_order.
+Print Assumptions C20_ll_protected.
+Print Assumptions C20_ll_exactly_once.
+Print Assumptions C20_ll_close.
+Print Assumptions C20_ll_results.
+Print Assumptions C20_no_lost_wakeup.
+Print Assumptions C20_no_deadlock.
+Print Assumptions C20_closed_terminates.
+Print Assumptions C20_ch_exactly_once.
+Print Assumptions C20_ch_close.
+Print Assumptions C20_ch_results.
+Print Assumptions C20_ch_no_deadlock.
+Print Assumptions C20_ch_within_capacity.
+Print Assumptions C20_bounded.
+Print Assumptions C20_ch_full_no_waiter.
+Print Assumptions C20_ch_push_never_blocks.
+Print Assumptions C20_plist_spec.
+Print Assumptions C20_capacity.
+Print Assumptions C20_capacity_fresh.
+Print Assumptions C20_plist_nodup.
+Print Assumptions C20_pool_isolation.
+Print Assumptions C20_pool_discipline.
